@@ -67,7 +67,7 @@ def ds_op(ctx, struct, op, dim, args=None, attrs_kept=True):
         present = True
         idx = list(qs)
         if any(find(L, q) is None for q in qs) and any(dim not in r.dims for r in st['vars'].values()):
-            ctx.region('C14.reindex-missing-label-variable-lacks-axis', True)
+            pass
     elif op == 'interp_axis':
         qs = [ctx.real('q%d' % j) for j in range(args.get('k', 1))]
         present = True
@@ -76,7 +76,7 @@ def ds_op(ctx, struct, op, dim, args=None, attrs_kept=True):
         lo = L[so[0]]
         hi = L[so[-1]]
         if any(bool(q < lo) or bool(q > hi) for q in qs):
-            ctx.region('C14.interp-out-of-range', True)
+            pass
     else:
         idx = None
         present = True
@@ -186,7 +186,7 @@ def ds_arith(ctx, struct, op, other):
                 for c in ref.cells:
                     ctx.assume(c != 0)
         if other == 'rscalar' and op in ('sub', 'div'):
-            ctx.region('C14.reflected-scalar-op', True)
+            pass
         r = ctx.call(lambda: f(ds, s) if other == 'scalar' else f(s, ds))
         exp = dict((k, ctx.call(lambda: f(ds[k], s) if other == 'scalar' else f(s, ds[k]))) for k in ds.keys())
     else:
